@@ -162,6 +162,32 @@ let o_auth (arg : n list) : auth_result =
   else if mech "LOGIN" then Auth_multi
   else Auth_done (n_of_int 504)
 
+(* ---- the Received-SPF field: the extracted model of property C11 (check_host() and spfreceived(), coq/Model/Spf.v) run on the
+   zone of harness/session/fakedns.c.  Only TXT matters for the records used there (ip4 / ip6 / all). *)
+let fakedns_txt (name : string) : string option =
+  match String.lowercase_ascii name with
+  | "example.com" -> Some "v=spf1 -all"                                            (* fail *)
+  | "example.org" -> Some "v=spf1 ip4:192.0.2.0/24 ip6:2001:db8::/32 -all"         (* pass for the clients of the harness *)
+  | "shop.example.net" -> Some "v=spf1 ~all"                                       (* softfail *)
+  | "x.example.com" -> Some "v=spf1 ?all"                                          (* neutral (a HELO name: bounces) *)
+  | "again.example.net" -> Some "v=spf1 ip4:198.51.100.0/24 ip6:2001:db8:ffff::/48 ~all"   (* no match, then softfail *)
+  | _ -> None
+let fake_dns : dns =
+  { d_txt = (fun n -> match fakedns_txt (str_of_bytes n) with Some t -> TxtRecs [bytes_of_str t] | None -> TxtRecs []);
+    d_a = (fun _ -> AList []); d_aaaa = (fun _ -> AList []); d_mx = (fun _ -> MxNoHost); d_name = (fun _ -> NErr EPerm) }
+let spf_field (v4 : bool) (helo : n list) (from : n list) : n list =
+  let octs = if v4 then [0;0;0;0;0;0;0;0;0;0;255;255;192;0;2;1] else [0x20;0x01;0x0d;0xb8;0;0;0;0;0;0;0;0;0;0;0;1] in
+  let x = { s_client = octets_to_N (List.map n_of_int octs); s_iptext = bytes_of_str (if v4 then "192.0.2.1" else "2001:db8::1");
+            s_mailfrom = from; s_helostr = helo; s_remotehost = []; s_heloname = bytes_of_str "mail.example.org"; s_now = n_of_int 1000000000 } in
+  let dom = if from = [] then helo else
+      (let s = str_of_bytes from in match String.index_opt s '@' with Some k -> bytes_of_str (String.sub s (k + 1) (String.length s - k - 1)) | None -> from) in
+  match check_host_c fake_dns x dom None None with
+  | Ok (rc, g) ->
+      let rci = int_of_z rc in
+      if rci < 0 then failwith "spf_field: check_host error" else
+      (match spfreceived x (z_of_int (rci land 15)) g with Some h -> h | None -> failwith "spf_field: spfreceived")
+  | _ -> failwith "spf_field: check_host did not finish"
+
 let make_oracles cfg : oracles =
   let relay = cfg "relay" "none" and ip = cfg "ip" "v4" in
   let plan = List.filter (fun x -> x <> "") (String.split_on_char ',' (cfg "qq" "")) in
@@ -176,6 +202,8 @@ let make_oracles cfg : oracles =
              nat_of_int (if starts_with d "nomx." then 1 else if starts_with d "nullmx." then 2 else 0));
     o_qq = (fun k -> match List.nth_opt plan (int_of_nat k) with
         | None | Some "ok" -> QQ_ok
+        | Some "ns" -> QQ_nostart        (* the child is gone when queue_init() looks (forced schedule, harness/session/wraps.c) *)
+        | Some "nh" -> QQ_die_hdr        (* queue_init() misses its death: EPIPE at the Received: header *)
         | Some p when starts_with p "exit:" ->
             let c = int_of_string (String.sub p 5 (String.length p - 5)) in if c = 0 then QQ_ok else QQ_exit (nat_of_int c)
         | Some p when starts_with p "ce:" -> QQ_die_write
@@ -194,12 +222,12 @@ let make_oracles cfg : oracles =
     o_auth = o_auth;
     (* the trace header is the extracted model of write_received() / spfreceived(SPF_NONE) *)
     o_trace = (fun authname tlsclient helo from esmtp first relayclient ->
-        trace_header
+        trace_header_with (spf_field (ip = "v4") helo from)
           { t_remotehost = []; t_authhide = false; t_remoteip = bytes_of_str remoteip; t_remoteport = Some (bytes_of_str "1234");
             t_helostr = helo; t_authname = authname; t_tlsclient = tlsclient; t_remoteinfo = None;
             t_heloname = bytes_of_str "mail.example.org"; t_version = bytes_of_str "Qsmtpd 0.39dev";
             t_esmtp = esmtp; t_cipher = None; t_chunked = false; t_first = first; t_date = bytes_of_str (String.make 31 'D') }
-          from (int_of_n relayclient = 1));
+          (int_of_n relayclient = 1));
     (* submission mode: TCPLOCALPORT (cfg port) is the regenerated port string; the date is the (masked) one of the Received: line,
        gettimeofday() is wrapped by the harness (harness/session/wraps.c), control/msgidhost of the scratch tree *)
     o_submission = (cfg "port" "25" = str_of_bytes submission_port);
@@ -227,13 +255,13 @@ let make_toracles cfg : toracles =
   { o_clear = oc;
     (* the extracted model of write_received() with a TLS session: "(<cipher> encrypted) ESMTPS"; the runner masks the cipher name *)
     o_trace_tls = (fun authname tlsclient helo from esmtp first relayclient ->
-        trace_header
+        trace_header_with (spf_field (ip = "v4") helo from)
           { t_remotehost = []; t_authhide = false; t_remoteip = bytes_of_str remoteip; t_remoteport = Some (bytes_of_str "1234");
             t_helostr = helo; t_authname = authname; t_tlsclient = tlsclient; t_remoteinfo = None;
             t_heloname = bytes_of_str "mail.example.org"; t_version = bytes_of_str "Qsmtpd 0.39dev";
             t_esmtp = esmtp; t_cipher = Some (bytes_of_str "CIPHER"); t_chunked = false; t_first = first;
             t_date = bytes_of_str (String.make 31 'D') }
-          from (int_of_n relayclient = 1));
+          (int_of_n relayclient = 1));
     o_certfile = (cert <> "none");
     o_tlsinit = (cert = "good");
     o_eat = nat_of_int 5 }
@@ -372,7 +400,9 @@ let simple_check (o : toracles) (items : string list) (toks : tok list) hand : s
                  go rest'
              | [] -> ()
              | _ -> raise Not_simple)
-          end else (emit [rep]; go rest) end
+          end else begin
+            if r = 451 then incr k;      (* queue_init() failed: an invocation without 354 *)
+            emit [rep]; go rest end end
         else if starts_with u "AUTH " then begin
           (* a 235 means "authenticated"; the name is the oracle's (the reply does not carry it) *)
           (if r = 235 then
